@@ -2,7 +2,7 @@
 from ..rules import delivery, idioms
 from .common import declare
 
-RULES = ['RESERVE-ALGEBRA', 'ATOMIC-RMW', 'EMIT-SIG', 'PASS-VALUE', 'SINGLE-CONSUMER', 'SERIAL-DRAIN', 'FIFO-END']
+RULES = ['TIMEDELTA-TOTAL', 'RESERVE-ALGEBRA', 'ATOMIC-RMW', 'EMIT-SIG', 'PASS-VALUE', 'SINGLE-CONSUMER', 'SERIAL-DRAIN', 'FIFO-END']
 FLOORS = {'RESERVE-ALGEBRA': 4, 'ATOMIC-RMW': 1, 'EMIT-SIG': 3, 'PASS-VALUE': 2, 'SINGLE-CONSUMER': 1, 'SERIAL-DRAIN': 1,
           'FIFO-END': 1}
 
@@ -26,9 +26,13 @@ def run(ctx, R):
     M = ctx.model
     rl, dl = M.cls('streamz.core', 'rate_limit'), M.cls('streamz.core', 'delay')
     idioms.check_reserve_algebra(ctx, R)
+    delivery.check_timedelta_total(ctx, R)
     delivery.check_atomic_rmw(ctx, R, [(rl, f) for f in rl.methods.values()])
     delivery.check_emit_sig(ctx, R, [rl, dl])
     delivery.check_pass_value(ctx, R, [rl, dl])
     delivery.check_single_consumer(ctx, R, [dl])
     delivery.check_serial_drain(ctx, R, [dl])
     delivery.check_fifo_end(ctx, R, [dl])
+
+
+META['level'] += ' Durations are converted with total_seconds() (TIMEDELTA-TOTAL).'
